@@ -9,6 +9,7 @@ import numpy as np
 
 from vf import common, gen, refmdp, refsolve
 
+SIBLING_EVERY = 3      # every n-th case is followed by a same-shape sibling problem/solver in the same process (vf/worker.py)
 LEVEL = "exploration"
 TECHNIQUE = "reference-model oracle: numpy value iterates + documented period-span rule vs the real solver's stop iteration, values, history buffer and gain"
 RULE = ("cases = generated MDP (dense/sparse/... classes; for gamma=1 unichain aperiodic chains and exactly "
